@@ -247,6 +247,21 @@ def mk_inc(j):
     if j.get('range') is not None:
         kw['range'] = tuple(j['range'])
     data = dict(zip(j.get('Ts', []), j.get('Cps', [])))
+    if j.get('via_yaml'):
+        # the same correlation read from non-dimensional YAML text (what a data file holds) instead of being built in Python
+        from pgradd import yaml_io
+        from pgradd.ThermoChem import ThermochemGroup  # noqa: F401  (registers the tag)
+        L = ['T_ref: %r K' % float(j['T_ref'] if j.get('T_ref') is not None else 298.15)]
+        if j.get('H') is not None:
+            L.append('ND_H_ref: %r' % float(j['H']))
+        if j.get('S') is not None:
+            L.append('ND_S_ref: %r' % float(j['S']))
+        if data:
+            L.append('ND_Cp_data:')
+            L += ['  - [%r K, %r]' % (float(t), float(c)) for t, c in data.items()]
+        if j.get('range') is not None:
+            L.append('range: [%r K, %r K]' % (float(j['range'][0]), float(j['range'][1])))
+        return yaml_io.load(yaml_io.parse('\n'.join(L) + '\n'), {}, tag='!ThermochemGroup')
     return ThermochemIncomplete(j.get('H'), j.get('S'), data, **kw)
 
 
@@ -508,7 +523,7 @@ def job_yaml_roundtrip(j):
                 from pgradd import yaml_io
                 with warnings.catch_warnings(record=True):
                     warnings.simplefilter('always')
-                    o2 = yaml_io.load(yaml_io.parse(text), {}, tag='ThermochemGroup')
+                    o2 = yaml_io.load(yaml_io.parse(text), {}, tag='!ThermochemGroup')
                 v['after_direct'] = snap(o2)
             except Exception as e:
                 v['direct_exc'] = exc_name(e)
